@@ -54,14 +54,22 @@ XML_NASTY = ["", " ", "abc", "2020-13-01", "2020-01-01T24:61:00", "24:61", "1e99
              "99999-01-01", "0000-01-01", "-0001-01-01", "10000-01-01T00:00:00Z",
              "9999-12-31T23:59:59.9999999Z", "0001-01-01T00:00:00+14:00", "9999-12-31T23:59:59-14:00",
              "2020-01-01T00:00:00+99:99", "24:00:00", "23:59:60", "23:59:59.9999999", "2020/13/45",
-             "31.02.2020 10:00", "1e400", "-1e400", "1" + "0" * 400, "0." + "0" * 400 + "1"]
+             "31.02.2020 10:00", "1e400", "-1e400", "1" + "0" * 400, "0." + "0" * 400 + "1",
+             "2023-02-30+01:00", "2023-13-01Z", "2023-02-30Z", "0000-00-00Z", "2023-02-29",
+             "9999-12-31T24:00:00", "9999-12-31T24:00:00Z", "9999-12-31T23:59:59.9999995",
+             "2020-01-01T00:00:00-00:30", "t:x:Item", "::"]
 DOC_NASTY = ["", " ", "abc", "2020-13-01", "24:61", "1e999999", "9" * 5000, 1e308, -1e308, 2 ** 70,
              -2 ** 70, 1.5, True, False, None, [], {}, [[]], {"": None}, "\x00", "\ud800",
              "QUJD=", "zz", "P", 0, -1, [None], {"a": {"a": {"a": {}}}}, "0" * 70000,
              "P99999999999Y", "-P999999999999D", "PT99999999999999999999S", "99999-01-01", "0000-01-01",
              "10000-01-01T00:00:00Z", "9999-12-31T23:59:59.9999999Z", "0001-01-01T00:00:00+14:00",
              "9999-12-31T23:59:59-14:00", "24:00:00", "23:59:60", "2020/13/45", "1e400", 2.0, 1e20,
-             10 ** 400, -10 ** 400, float("inf"), float("nan")]
+             10 ** 400, -10 ** 400, float("inf"), float("nan"),
+             "2023-02-30+01:00", "2023-13-01Z", "9999-12-31T24:00:00", "9999-12-31T23:59:59.9999995"]
+
+
+XSI_TYPE_NASTY = ["t:x:Item", "::", ":", "a:", ":b", "xs:string:x", "", " ", "{urn:x}y", "x" * 5000,
+                  "xs:", "nope:string", "xsi:type", "a b", "\u00e9:\u00e9"]
 
 
 def cases(tier):
@@ -273,12 +281,17 @@ def xml_struct_mutants(T, muts):
                 else:
                     el.set("bogus", "1")
                 kind = "attribute-nasty"
+            elif k == 8 and b % 3 == 0:
+                el.set("{%s}type" % ref_xml.XSI, XSI_TYPE_NASTY[(b // 3) % len(XSI_TYPE_NASTY)])
+                kind = "xsi-type-nasty"
             elif k == 8:
                 el.set("{%s}nil" % ref_xml.XSI, ["true", "1", "maybe", ""][b % 4])
                 kind = "nil-on-value"
             elif k == 9:
-                el.set("href", "#x%d" % (b % 2))
-                el.set("id", "x%d" % (b % 2))
+                # href/id multi-references: self-referencing, resolving to another element,
+                # or dangling while some other element does carry an id
+                el.set("href", "#x%d" % (b % 3))
+                els[(a + 1 + b % 5) % len(els)].set("id", "x%d" % (b // 3 % 3))
                 kind = "multiref"
             elif k == 10:
                 el.text = None
@@ -403,9 +416,10 @@ def http_struct_mutants(T, muts):
         if kk == 0:
             ps[i] = (k, nasty); kind = "value-nasty"
         elif kk == 1:
-            ps[i] = (k + "[%d]" % (b % 30), v); kind = "index-on-scalar"
+            idx = ["%d" % (b % 30), "1" * 5000, "-1", "1e3", "0x1", "１", "", "0" * 30 + "1"][b % 8]
+            ps[i] = (k + "[%s]" % idx, v); kind = "index-on-scalar"
         elif kk == 2:
-            ps[i] = (k.replace("[", "[9" if b % 2 else "[-"), v); kind = "index-mangled"
+            ps[i] = (k.replace("[", ("[9", "[-", "[" + "7" * 4400, "[0")[b % 4]), v); kind = "index-mangled"
         elif kk == 3:
             ps[i] = (k + d + "x", v); kind = "deeper-path"
         elif kk == 4:
